@@ -108,6 +108,39 @@ def numeric_compare(m, d, order, point):
     for i in range(nS):
         if not tol(got[i], float(sp["pure"][i])):
             return ("numeric-pure", "pureOdeVector[%d] = %r, expected %r" % (i, got[i], float(sp["pure"][i])))
+    # the same parameter values at another time (and state): a second evaluation is an evaluation at ITS arguments
+    later = dict(point)
+    later["t"] = point["t"] + Fraction(3, 2)
+    for k, s_ in enumerate(d["states"]):
+        later[s_] = point[s_] + Fraction(k + 1, 4)
+    try:
+        sp3 = mg.spec_values(reorder(d, order), later)
+    except Exception:       # noqa: BLE001  (a singular point of a saturating rate)
+        sp3 = None
+    if sp3 is not None:
+        x3, t3 = np.array([float(later[s_]) for s_ in d["states"]]), float(later["t"])
+        got = np.asarray(m.ode(x3, t3), float).ravel()
+        for i in range(nS):
+            if not tol(got[i], float(sp3["ode"][i])):
+                return ("numeric-ode-second-point", "evaluated at (x, t) and then at (x', t') = (%s, %r) with the same parameters: ode(x',t')[%d] = %r "
+                        "but the definition gives %r" % (x3.tolist(), t3, i, got[i], float(sp3["ode"][i])))
+        if nE:
+            got = np.asarray(m.eventRateVector(x3, t3), float).ravel()
+            for j in range(nE):
+                if not tol(got[j], float(sp3["rates"][j])):
+                    return ("numeric-rate-vector-second-point", "evaluated at (x, t) and then at (x', t') with the same parameters: "
+                            "eventRateVector(x',t')[%d] = %r, expected %r" % (j, got[j], float(sp3["rates"][j])))
+            got = np.asarray(m.vMat(x3, t3), float).reshape(nS, nE)
+            for i in range(nS):
+                for j in range(nE):
+                    if not tol(got[i, j], float(sp3["V"][i][j])):
+                        return ("numeric-vmat-second-point", "evaluated at (x, t) and then at (x', t') with the same parameters: "
+                                "vMat(x',t')[%d][%d] = %r, expected %r" % (i, j, got[i, j], float(sp3["V"][i][j])))
+        got = np.asarray(m.pureOdeVector(x3, t3), float).ravel()
+        for i in range(nS):
+            if not tol(got[i], float(sp3["pure"][i])):
+                return ("numeric-pure-second-point", "evaluated at (x, t) and then at (x', t') with the same parameters: "
+                        "pureOdeVector(x',t')[%d] = %r, expected %r" % (i, got[i], float(sp3["pure"][i])))
     # a slow system: every parameter a million million times smaller.  Small is not zero: judged RELATIVE to the exact value
     # (entries that are small only through cancellation between terms are left out)
     slow = dict(point)
@@ -242,6 +275,11 @@ CORPUS = [
                          events=[dict(rate="beta*y1*y2/Ntot", kind="freqdep", trans=[dict(ty="T", o=0, d=1, mag="1")]),
                                  dict(rate="gamma*y2", kind="linear", trans=[dict(ty="T", o=1, d=2, mag="1"), dict(ty="D", o=3, d=None, mag="y3/7")]),
                                  dict(rate="mu*y3", kind="linear", trans=[dict(ty="T", o=2, d=3, mag="1")])]), 8), "event"),
+    # rates and explicit terms that depend on time but on no state (seasonal immigration, a forcing term): evaluated at two times
+    (dict(states=["S", "I"], params=["beta", "gamma", "mu"], derived=[["fbeta", "beta*(1+cos(t)/3)"], ["fmu", "mu*(2+sin(t))/3"]], decl="list",
+          odes=[dict(state=1, eqn="-fmu")],
+          events=[dict(rate="fbeta", kind="periodic", trans=[dict(ty="B", o=None, d=0, mag="1")]),
+                  dict(rate="gamma*S", kind="linear", trans=[dict(ty="T", o=0, d=1, mag="fmu")])]), "event"),
     # a single birth process and a single explicit ODE term: the constructor is given the objects themselves now and then
     (dict(states=["S", "I"], params=["beta", "gamma"], derived=[], decl="list", odes=[dict(state=1, eqn="-gamma*I")], _bare=True,
           events=[dict(rate="beta*S", kind="linear", trans=[dict(ty="T", o=0, d=1, mag="1")]),
